@@ -209,6 +209,27 @@ def work(item):
             nheld += ok
         out['obligations'].append({'obligation': 'factories with dimension %d: every inadmissible (dimension,index) in the window throws, no invalid access' % d, 'verdict': '%d of %d hold' % (nheld, total)})
         pool.ex.stats['paths'] = 0
+    if kind == 'views':
+        from irsym.harness import Harness, I as HI, Buf as HBuf
+        hv = Harness('c14v.cpp', ('SUNalg.cpp',), solver=solver)
+        nv = 0
+        for prows, pcols in ((2, 2), (3, 3), (4, 4), (6, 6), (3, 5), (5, 3), (7, 7)):
+            for rows in range(1, prows + 1):
+                for cols in range(1, pcols + 1):
+                    vals = sym_vec('m', 2 * prows * pcols)
+                    ps = hv.run('h_view_ctor', [HI(rows), HI(cols), HI(prows), HI(pcols), HBuf('vals', vals), HBuf('o', n=1)])
+                    exstats.append(dict(hv.last_ex.stats))
+                    supported = rows == cols and 2 <= rows <= 6
+                    nv += 1
+                    for p in ps:
+                        if p.status != 'ok':
+                            out['candidates'].append({'key': 'view-ctor:%dx%d-of-%dx%d' % (rows, cols, prows, pcols), 'what': 'SU_vector(matrix view %dx%d of a %dx%d matrix): %s: %s' % (rows, cols, prows, pcols, (p.info or {}).get('kind'), (p.info or {}).get('msg')),
+                                                      'view': [rows, cols, prows, pcols], 'lines': [], 'program': []})
+                        elif (p.ret == 0) != supported:
+                            out['candidates'].append({'key': 'view-ctor:%dx%d-of-%dx%d' % (rows, cols, prows, pcols), 'what': 'SU_vector(matrix view %dx%d, row stride %d) %s' % (rows, cols, pcols, 'does not raise an exception' if p.ret == 0 else 'is rejected although it is a supported square'),
+                                                      'view': [rows, cols, prows, pcols], 'lines': [], 'program': []})
+        out['obligations'].append({'obligation': 'matrix constructor on %d blocks of larger matrices (row stride != columns): accepted iff a supported square' % nv, 'verdict': 'holds' if not out['candidates'] else 'fails'})
+        out['witnesses']['reachability'] += nv
     out.update(worker_result(solver, [{'paths': sum(1 for _ in exstats), 'steps': max([e['steps'] for e in exstats] or [0])}], functions=FUNCS))
     return out
 
@@ -216,6 +237,16 @@ def work(item):
 def replay(chk, c):
     """native replay under ASan/UBSan: the last instruction must return rc 1 (exception) and leave earlier slots untouched"""
     chk.cov['replayed'] += 1
+    if 'view' in c:
+        from irsym.harness import Harness, I as HI, Buf as HBuf
+        rows, cols, prows, pcols = c['view']
+        hv = Harness('c14v.cpp', ('SUNalg.cpp',))
+        try:
+            ret, o = hv.native('h_view_ctor', [HI(rows), HI(cols), HI(prows), HI(pcols), HBuf('vals', [0.1 * k for k in range(2 * prows * pcols)]), HBuf('o', n=1)])
+        except Exception as e:
+            return True, 'native crash: %s' % str(e)[:100]
+        supported = rows == cols and 2 <= rows <= 6
+        return (ret == 0) != supported, 'native: %s' % ('no exception' if ret == 0 else 'exception (rc %d)' % ret)
     prog = []
     for ln in c['lines']:
         w = ln.split(' = ')[0].split()
@@ -249,6 +280,7 @@ def main(tier):
     dims = [2, 3, 4, 5, 6]
     items = [('binary', a, b, tier) for a in dims for b in dims if a != b]
     items.append(('ctor', tier))
+    items.append(('views', tier))
     items += [('factory', d, tier) for d in (1, 2, 3, 4, 5, 6, 7, 8)]
     chk.cov['bounds'] = {'dimension pairs': 'all 20 ordered (d1,d2), d1!=d2, in {2..6}^2', 'binary entry points': [b[0] for b in BINARY],
                          'constructors': 'dimension 1,7,8; list lengths 1..64 except supported squares; matrices r x c up to 8x8 (<=40 entries) except supported squares',
